@@ -76,6 +76,15 @@ class Models:
         raise Unsupported('member %s of opaque %s' % (name, base.what))
 
     def repo_override(self, qn):
+        if qn == 'format_number':
+            def f(st, this, arg_nodes, n, fr):
+                e = self.e
+                v = e.rv(arg_nodes[0], st, fr); fmt = e.raw(e.rv(arg_nodes[1], st, fr))
+                if z3.is_bool(v): v = z3.If(v, z3.IntVal(1), z3.IntVal(0))
+                g = e.uf('format:' + ('real' if z3.is_real(v) else 'int'), R if z3.is_real(v) else I, I, I)
+                self.used('format_number (sprintf into a 30-byte buffer): an uninterpreted function of (number, format); the buffer bound is not checked')
+                return g(v, fmt)
+            return f
         if qn == 'lower_string':
             def f(st, this, arg_nodes, n, fr):
                 e = self.e
